@@ -41,9 +41,9 @@ const EngineB = false
 type taskState int
 
 const (
-	tsParked taskState = iota // at a yield point, can be released
-	tsRunning                 // released (or blocked in an uninstrumented primitive)
-	tsLockWait                // waiting for a simulated mutex
+	tsParked   taskState = iota // at a yield point, can be released
+	tsRunning                   // released (or blocked in an uninstrumented primitive)
+	tsLockWait                  // waiting for a simulated mutex
 	tsDone
 )
 
